@@ -23,3 +23,9 @@ def c06_store_roundtrip(store, fresh):
     from clematis.engine.snapshot import _export_store_for_snapshot, _import_store_from_snapshot
     snap = _export_store_for_snapshot(store)
     return _import_store_from_snapshot(fresh, snap)
+
+
+def c06_round6_of_clamp(w, lo, hi):
+    """the weight pipeline of the sanitiser on one value"""
+    from clematis.engine.snapshot import _round6, _clamp
+    return _round6(_clamp(float(w), lo, hi))
